@@ -919,18 +919,12 @@ impl Parse {
         // TODO_ZAIN: Take a look at which hashing function is being used
         let mut hasher = DefaultHasher::new();
 
-        let concatenated = format!(
-            "{}{}{}",
-            self.query,
-            self.num_params,
-            self.param_types
-                .iter()
-                .map(ToString::to_string)
-                .collect::<Vec<_>>()
-                .join(",")
-        );
-
-        concatenated.hash(&mut hasher);
+        // Hash the fields one by one: concatenating them lets different statements
+        // produce the same string, e.g. ("... x1", no parameters) and ("... x", one
+        // parameter of type 0).
+        self.query.hash(&mut hasher);
+        self.num_params.hash(&mut hasher);
+        self.param_types.hash(&mut hasher);
 
         hasher.finish()
     }
